@@ -60,6 +60,13 @@ def six (lt eq : α → α → Bool) (op : Op) (a b : α) : Bool :=
   | .gt => lt b a
   | .ge => lt b a || eq a b
 
+/-- F&O §9.4 / XSD §3.3.7 order relation: the instant of a date/time value, local reading minus
+timezone offset; without a timezone the implicit timezone (UTC, PT0S) is used -/
+def instant (d : DT) : Int :=
+  match d.tz with
+  | some off => d.t - 60 * off
+  | none => d.t
+
 /-- codepoint collation: strings are ordered as the sequences of their code points -/
 def strLtS (a b : Str) : Bool := decide (a < b)
 def strEqS (a b : Str) : Bool := decide (a = b)
@@ -96,8 +103,10 @@ def valueOp (binOrd : Bool) (op : Op) (a b : Atom) : Except Err Bool :=
   -- xs:string and xs:anyURI (anyURI is promoted to string)
   | .str s, .str t | .str s, .uri t | .uri s, .str t | .uri s, .uri t => .ok (six strLtS strEqS op s t)
   | .bool x, .bool y => .ok (six (fun p q => !p && q) (fun p q => p == q) op x y)
+  -- F&O §9.4: dates, times and dateTimes are ordered as instants on the timeline (a value without
+  -- timezone takes the implicit timezone: UTC here)
   | .date s, .date t | .dtm s, .dtm t | .time s, .time t =>
-    .ok (six (fun p q => decide (p < q)) (fun p q => decide (p = q)) op s t)
+    .ok (six (fun p q => decide (p < q)) (fun p q => decide (p = q)) op (instant s) (instant t))
   | .ymd s, .ymd t => .ok (six (fun p q => decide (p < q)) (fun p q => decide (p = q)) op s t)
   | .dtd s, .dtd t => .ok (six (fun p q => decide (p < q)) (fun p q => decide (p = q)) op s t)
   | .qn ns _ loc, .qn ns' _ loc' =>
